@@ -159,6 +159,22 @@ structure RawDomain where
   iters : List PExp
   deriving Repr, Inhabited
 
+/-- `(nl* ~ for_iteration)?` behind the type of a declaration -/
+def domainFinish (vars : List CName) (ty : String) (args : Option (List PExp)) (r : List Tok) : PRes (RawDomain × List Tok) :=
+  match optFor r with
+  | .ok ((vs, its), r') => .ok ({ vars := vars, tyName := ty, args := args, iterVars := vs, iters := its }, r')
+  | .error e => .error e
+
+/-- `as_value?` and the iteration behind the type name -/
+def domainTail (vars : List CName) (ty : String) (r2 : List Tok) : PRes (RawDomain × List Tok) :=
+  match r2 with
+  | .lpar :: r3 =>
+    match parseTypeArgs (r3.length + 1) r3 [] with
+    | .ok (as, r4) => domainFinish vars ty (some as) r4
+    | .error .reject => domainFinish vars ty none r2      -- `as_value?` fails: the declaration goes on after the type name
+    | .error e => .error e
+  | _ => domainFinish vars ty none r2
+
 /-- `domain_declaration = { domain_variables ~ nl* ~ ^"as" ~ as_assertion ~ (nl* ~ for_iteration)? }`,
 `as_assertion = { (!keyword ~ as_type) ~ as_value? }` -/
 def parseDomain (toks : List Tok) : PRes (RawDomain × List Tok) :=
@@ -167,18 +183,7 @@ def parseDomain (toks : List Tok) : PRes (RawDomain × List Tok) :=
   | .ok (vars, r) =>
     match skipNl r with
     | .word a :: .word ty :: r2 =>
-      if lowerWord a == "as" && isTypeName ty && !(isKeyword ty) then
-        let finish (args : Option (List PExp)) (r : List Tok) : PRes (RawDomain × List Tok) :=
-          match optFor r with
-          | .ok ((vs, its), r') => .ok ({ vars := vars, tyName := ty, args := args, iterVars := vs, iters := its }, r')
-          | .error e => .error e
-        match r2 with
-        | .lpar :: r3 =>
-          match parseTypeArgs (r3.length + 1) r3 [] with
-          | .ok (as, r4) => finish (some as) r4
-          | .error .reject => finish none r2      -- `as_value?` fails: the declaration goes on after the type name
-          | .error e => .error e
-        | _ => finish none r2
+      if lowerWord a == "as" && isTypeName ty && !(isKeyword ty) then domainTail vars ty r2
       else .error .reject
     | _ => .error .reject
 
